@@ -155,9 +155,22 @@ func modelCheck(c *core.Ctx, casesFile string, workers int) (*MCResult, error) {
 		return nil, fmt.Errorf("the copy model violates its own laws on the bounded universe (specification needs fixing): %s", res.ErrText)
 	}
 	mc := &MCResult{States: res.Distinct, Transitions: res.Generated, Wall: res.Wall}
+	// sensitivity on the head of the universe (every constructor over the first leaves): breadth-first
+	// search reaches the first write state only after all (source, destination) pairs of all types
+	lines, err := readLines(casesFile)
+	if err != nil {
+		return nil, err
+	}
+	if len(lines) > 60 {
+		lines = lines[:60]
+	}
+	negFile := casesFile + ".neg"
+	if err := os.WriteFile(negFile, append(bytes.Join(lines, []byte("\n")), '\n'), 0644); err != nil {
+		return nil, err
+	}
 	neg, err := tlc.Run(tlc.Opts{SpecDirs: specDirs(c), Module: "HeapMC", Config: "HeapMCNeg.cfg",
 		Workers: 1, Timeout: 10 * time.Minute, HeapMB: 4000, Scratch: c.Work,
-		Env: map[string]string{"VERIF_CASES": casesFile}})
+		Env: map[string]string{"VERIF_CASES": negFile}})
 	if err != nil {
 		return nil, err
 	}
